@@ -224,19 +224,20 @@ fn encode_seqnum(seqnum: usize, writer: &mut BitWriter<impl AsMut<Vec<u8>>>) {
     const UPPER_LIMIT: usize = 0xFFFF + 0x7F00;
     match seqnum {
         1..=127 => writer.write_bits(seqnum as u32, 8),
-        128..=0x7FFF => {
+        128..=0x7EFF => {
             let upper = ((seqnum >> 8) | 0x80) as u8;
             let lower = seqnum as u8;
             writer.write_bits(upper, 8);
             writer.write_bits(lower, 8);
         }
-        0x8000..=UPPER_LIMIT => {
+        0x7F00..=UPPER_LIMIT => {
+            // The three byte form stores `count - 0x7F00` little endian after the 255 marker
             let encode = seqnum - 0x7F00;
             let upper = (encode >> 8) as u8;
             let lower = encode as u8;
             writer.write_bits(255u8, 8);
-            writer.write_bits(upper, 8);
             writer.write_bits(lower, 8);
+            writer.write_bits(upper, 8);
         }
         _ => unreachable!(),
     }
